@@ -3,8 +3,10 @@ package engine
 import (
 	"bytes"
 	"fmt"
+	"os"
 	"os/exec"
 	"path/filepath"
+	"regexp"
 	"sort"
 	"strconv"
 	"strings"
@@ -43,6 +45,16 @@ func genSimpleProfile(r *Rng, name string) *ProfileSpec {
 	p := &ProfileSpec{Name: name, File: "prof-" + name, Ext: "yaml"}
 	if r.Bool() {
 		p.Validity = &ValSpec{Duration: fmt.Sprintf("%dy", r.Range(6, 20))}
+	}
+	if r.Chance(1, 3) {
+		// subject rules that every generated subject satisfies: all listed attributes optional, others
+		// allowed - the rule machinery runs, nothing is rejected
+		for _, a := range []string{"C", "O", "OU", "CN"} {
+			if r.Chance(2, 3) {
+				p.Attrs = append(p.Attrs, AttrSpec{Attr: a, Optional: bp(true)})
+			}
+		}
+		p.AllowOther = bp(true)
 	}
 	n := r.Intn(3)
 	for i := 0; i < n; i++ {
@@ -324,13 +336,82 @@ func laneK_C15(r *Rng, base *Plan, dry *World, fr *RunResult, tier string, sink 
 		m = 5
 	}
 	for i := 0; i < m; i++ {
-		wr := Pick(kr, fr.Writes)
-		kinds := []string{"kill-write", "err-write:ENOSPC", "err-write:EIO", "err-write:EDQUOT"}
-		if _, existed := fr.Before[wr.Path]; !existed {
-			kinds = append(kinds, "kill-close", "kill-close")
-		}
-		emit(kFault{Kind: Pick(kr, kinds), Path: wr.Path})
+		kinds := []string{"kill-write", "kill-write", "err-write:ENOSPC", "err-write:EIO", "err-write:EDQUOT", "kill-close"}
+		emit(kFault{Kind: Pick(kr, kinds), N: int64(kr.Intn(64))})
 	}
+}
+
+var straceOpenRx = regexp.MustCompile(`(?:openat\(AT_FDCWD, |open\(|creat\()"((?:[^"\\]|\\.)*)", ([A-Z_|0-9]+)`)
+
+// recordWriteOpens runs the binary once, fault-free, on a scratch copy of the directory under strace
+// and returns the files it opened for writing, in order, relative to the directory: the artifacts,
+// or whatever else the back end writes on its way to them (a temporary file it renames afterwards).
+// The fault is then aimed at one of *these* - what the real code does, not what the model expects.
+func recordWriteOpens(fr *RunResult, dry *World, flags uint8) ([]string, error) {
+	dir, err := scratchDir()
+	if err != nil {
+		return nil, err
+	}
+	defer removeAll(dir)
+	if err := materialize(dir, fr.Before, dry.FS.dirs); err != nil {
+		return nil, err
+	}
+	trace := dir + ".trace"
+	defer os.Remove(trace)
+	yes := "y\n"
+	wrap := []string{straceBin(), "-f", "-qq", "-s", "4096", "-o", trace, "-e", "trace=open,openat,creat"}
+	if _, err := runBinaryWrapped(dir, 0, flagArgs(flags), &yes, "UTC", wrap); err != nil {
+		return nil, err
+	}
+	b, err := os.ReadFile(trace)
+	if err != nil {
+		return nil, err
+	}
+	var out []string
+	seen := map[string]bool{}
+	for _, m := range straceOpenRx.FindAllStringSubmatch(string(b), -1) {
+		if !strings.Contains(m[2], "O_WRONLY") && !strings.Contains(m[2], "O_RDWR") && !strings.HasPrefix(m[0], "creat(") {
+			continue
+		}
+		p := unescapeStrace(m[1])
+		if rel, err := filepath.Rel(dir, p); err == nil && !strings.HasPrefix(rel, "..") && !seen[rel] {
+			seen[rel] = true
+			out = append(out, filepath.ToSlash(rel))
+		}
+	}
+	return out, nil
+}
+
+// unescapeStrace undoes strace's C-style string escapes (\ooo octal, \n, \t, \", \\).
+func unescapeStrace(s string) string {
+	var out []byte
+	for i := 0; i < len(s); i++ {
+		if s[i] != '\\' || i+1 >= len(s) {
+			out = append(out, s[i])
+			continue
+		}
+		i++
+		switch c := s[i]; {
+		case c >= '0' && c <= '7':
+			v, n := 0, 0
+			for n < 3 && i < len(s) && s[i] >= '0' && s[i] <= '7' {
+				v = v*8 + int(s[i]-'0')
+				i++
+				n++
+			}
+			i--
+			out = append(out, byte(v))
+		case c == 'n':
+			out = append(out, '\n')
+		case c == 't':
+			out = append(out, '\t')
+		case c == 'r':
+			out = append(out, '\r')
+		default:
+			out = append(out, c)
+		}
+	}
+	return string(out)
 }
 
 // kFault: a fault of lane K. fsize: file size limit N (a short write at byte N, error EFBIG).
@@ -417,7 +498,29 @@ func laneKOne(pl *Plan, dry *World, fr *RunResult, f kFault, sink *Sink) {
 	if f.Kind == "fsize" {
 		res, err = runBinaryWrapped(dir, v, flagArgs(fr.Op.Flags), &yes, "UTC", []string{prlimitBin(), fmt.Sprintf("--fsize=%d", f.N)})
 	} else {
+		if f.Path == "" {
+			opens, err := recordWriteOpens(fr, dry, fr.Op.Flags)
+			if err != nil {
+				sink.res.Harness = append(sink.res.Harness, "lane K recording run: "+err.Error())
+				return
+			}
+			if len(opens) == 0 {
+				sink.Cell("laneK:nothing-opened-for-writing")
+				return
+			}
+			f.Path = opens[int(f.N)%len(opens)]
+			if strings.HasSuffix(f.Path, ".pem") {
+				sink.Cell("laneK:target:artifact")
+			} else {
+				sink.Cell("laneK:target:other-file")
+			}
+		}
 		target := filepath.Join(dir, filepath.FromSlash(f.Path))
+		if f.Kind == "kill-close" {
+			if _, err := os.Lstat(target); err == nil {
+				f.Kind = "kill-write" // the file exists: its first close would be the one after reading it
+			}
+		}
 		wrap := []string{straceBin(), "-f", "-qq", "-o", "/dev/null", "-P", target}
 		switch {
 		case f.Kind == "kill-write":
